@@ -32,9 +32,9 @@ Theorem C03_finite_paths :
   forall tbl : list stack_key, prefix_earlier tbl -> forall i, i < length tbl -> exists fs, path tbl (Some i) fs.
 Proof. exact wf_prefix_walk_terminates. Qed.
 
-(* frame / func / resource / string tables: for ANY sequence of label frames, native frames (into libraries that exist) and string
+(* frame / func / resource / string tables: for ANY sequence of label frames, native frames with and without symbols (into libraries that exist) and string
    conversions, all columns have their table's length and every stored index points into its table:
-   frame -> func, func -> name string and resource, resource -> library and name string *)
+   frame -> func and native symbol, func -> name string and resource, resource -> library and name string, native symbol -> library and name string *)
 Theorem C03_table_indices :
   forall (nlibs : nat) (rs : list freq), Forall (req_ok nlibs) rs -> tt_wf nlibs (run_reqs rs).
 Proof. exact run_reqs_wf. Qed.
@@ -77,7 +77,7 @@ Example ex_c03 :
 Proof. vm_compute. repeat split. Qed.
 
 Example ex_c03_tables :
-  let t := run_reqs [FLabel 7; FNative 0 256 8 9; FString 5; FNative 0 516 10 9; FLabel 7] in
-  (tt_strings t, tt_res_lib t, tt_res_name t, tt_funcs t, tt_func_res t, tt_frame_func t) =
-  ([7; 8; 9; 5; 10]%N, [0], [2], [(0, None); (1, Some 0); (4, Some 0)], [None; Some 0; Some 0], [0; 1; 2]).
+  let t := run_reqs [FLabel 7; FNative 0 256 8 9; FString 5; FNativeSym 0 516 512 10 9; FNativeSym 0 520 512 10 9; FLabel 7] in
+  (tt_strings t, tt_res_lib t, tt_res_name t, tt_funcs t, tt_func_res t, tt_frame_func t, tt_ns t, tt_ns_name t) =
+  ([7; 8; 9; 5; 10]%N, [0], [2], [(0, None); (1, Some 0); (4, Some 0)], [None; Some 0; Some 0], [0; 1; 2; 2], [(0, 512%N)], [4]).
 Proof. vm_compute. reflexivity. Qed.
